@@ -86,7 +86,8 @@ def gen_cases(tier, seed):
 INDEX_KINDS = [None, None, None, {"kind": "range", "start": 5, "step": 2}, {"kind": "range", "start": 0, "step": 1, "name": "rix"},
                {"kind": "int"}, {"kind": "int", "name": "myidx"}, {"kind": "str", "name": "sidx"}, {"kind": "dt", "name": "when"},
                {"kind": "float", "name": "fidx"}, {"kind": "dtz", "name": "whenz"},
-               {"kind": "range", "start": 0, "step": -1}, {"kind": "range", "start": 10, "step": -3, "name": "down"}, {"kind": "td", "name": "tdi"}]
+               {"kind": "range", "start": 0, "step": -1}, {"kind": "range", "start": 10, "step": -3, "name": "down"}, {"kind": "td", "name": "tdi"},
+               {"kind": "cat", "name": "ci"}, {"kind": "cat_null", "name": "cin"}]
 
 
 def random_case(rng, cid, kinds=None, max_cols=6, allow_multi=True):
@@ -106,6 +107,9 @@ def random_case(rng, cid, kinds=None, max_cols=6, allow_multi=True):
             col["ncat"] = int([1, 2, 5, 40, 200, 0][int(rng.integers(0, 6))]) if kind != "cat_many" else int([129, 300, 70000][int(rng.integers(0, 3))]) if rng.random() < 0.3 else 300
             col["unused"] = int(rng.integers(0, 3))
         cols.append(col)
+    if len(cols) > 1 and int(cid.rsplit("/", 1)[-1]) % 9 == 4:
+        # a name of the form the reader gives its internal views of category labels
+        cols[1]["name"] = "c0-catdef"
     names = [c["name"] for c in cols]
     ix = INDEX_KINDS[int(rng.integers(0, len(INDEX_KINDS)))]
     opts = {"compression": O.compression(rng, names), "row_group_offsets": O.row_group_offsets(rng, n),
@@ -216,6 +220,12 @@ def run_case(case):
             counters["cat_codec_read"] = 1
         if (case["frame"].get("index") or {}).get("kind") not in (None, "range0", "range") and len(df.columns) >= 3:
             counters["index_multiblock_read"] = 1
+        if (case["frame"].get("index") or {}).get("kind") == "cat_null" and len(df) > 2 and opts.get("write_index") is not False:
+            counters["categorical_index_with_missing_entries_read"] = 1
+        if any(str(c["name"]).endswith("-catdef") for c in case["frame"]["cols"]) and nrg > 1:
+            counters["columns_named_like_category_definitions_read"] = 1
+        if isinstance(opts.get("compression"), dict) and any(isinstance(v, dict) and "type" not in v for v in opts["compression"].values()):
+            counters["codec_spec_without_type_read"] = 1
         if alias:
             a1 = alias.stats()
             counters["empty_alias_checked"] = a1["checked"] - a0["checked"]
@@ -237,4 +247,5 @@ def run_case(case):
 
 def required(tier):
     return {"roundtrips_compared": 500, "v2_multipage_nulls_read": 5, "cat_codec_read": 5,
-            "index_multiblock_read": 5, "empty_alias_checked": 100}
+            "index_multiblock_read": 5, "empty_alias_checked": 100, "categorical_index_with_missing_entries_read": 3,
+            "columns_named_like_category_definitions_read": 3, "codec_spec_without_type_read": 3}
